@@ -593,10 +593,12 @@ def main(prop, module, build_configs, meta):
     os.makedirs(os.path.join(VERIF, 'evidence', 'replays'), exist_ok=True)
     nrep = 0
     per_cfg = {}
+    skipped_candidates = 0
     for cd in cand:
         c = cd['cfg']
         per_cfg[c['name']] = per_cfg.get(c['name'], 0) + 1
         if per_cfg[c['name']] > 4 or len(violations) + len(known_hits) > 40:
+            skipped_candidates += 1
             continue
         kf = match_known(known, prop, c['name'], cd['key'])
         if cd['kind'] == 'exists-refuted':
@@ -670,6 +672,8 @@ def main(prop, module, build_configs, meta):
         print('  configuration=%s obligation=%s %s' % (cfgn, key, detail))
     for e in harness_errors:
         print('HARNESS-ERROR: ' + e)
+    if skipped_candidates:
+        print('note: %d further failing obligations / configurations were not replayed (at most 4 per configuration, 40 per run)' % skipped_candidates)
     ok_cfgs = statuses.get('ok', 0)
     print('%s %s: %d configurations (%s), %d obligations, %d discharged (%d existential, %d canaries, %d constant), '
           '%d concrete side conditions, %d inconclusive, %d violations, %d known, paths=%d, solver %.1fs, wall %.1fs'
